@@ -37,6 +37,16 @@ static const char *const probe_names[] = {"task_ran_on_gpu", "task_ran_on_cpu", 
 static const char *const SCHEDS[] = {"lfq", "ap", "gd", "lhq", "ltq", "pbq", "spq", "rnd"};
 #define NSCHED 7          /* rnd only on request (sched=7 with knob allow_rnd=1) */
 
+/* In the serialised modes 3/4 every accelerator task is followed by a writer that polls (AGAIN) until it is done; under spq
+ * (one global priority list, one lock, re-queued tasks sorted in again) that polling makes the slowest 0.1 % of the runs crawl
+ * for 70-80 M scheduling points (all of the slowest 6 of 6376 mode-4 runs were spq): spq is not used there. */
+static const char *sched_of(const hx_plan_t *p)
+{
+    long i = hx_knob(p, "sched", 0) % (hx_knob(p, "allow_rnd", 0) ? 8 : NSCHED);
+    if (hx_knob(p, "mode", 0) >= 3 && i == 6) i = 5;
+    return SCHEDS[i];
+}
+
 static dev_shared_t SH;
 static hx_result_t *RES;
 static int PROP;
@@ -529,7 +539,7 @@ static void run(const hx_plan_t *p, hx_result_t *res)
     DUMP = NULL;
     memset(DIRTY_DOWNGRADED, 0, sizeof(DIRTY_DOWNGRADED));
     GATE_OPEN = 0;
-    setenv("PARSEC_MCA_mca_sched", SCHEDS[hx_knob(p, "sched", 0) % (hx_knob(p, "allow_rnd", 0) ? 8 : NSCHED)], 1);
+    setenv("PARSEC_MCA_mca_sched", sched_of(p), 1);
     setenv_int("PARSEC_MCA_device_skip_empty_events", hx_knob(p, "skip_empty", 1));
     simmpi_cfg_t mcfg;
     memset(&mcfg, 0, sizeof(mcfg));
@@ -617,7 +627,7 @@ static void run(const hx_plan_t *p, hx_result_t *res)
 static void annotate(const hx_plan_t *p, char *buf, size_t n)
 {
     plan_to_shared(p);
-    snprintf(buf, n, "[mode=%ld sched=%s threads=%d ndev=%d memtiles=%ld peer=%ld]", hx_knob(p, "mode", 0), SCHEDS[hx_knob(p, "sched", 0) % (hx_knob(p, "allow_rnd", 0) ? 8 : NSCHED)], SH.nthreads, SH.ndev, hx_knob(p, "memtiles", 4), hx_knob(p, "peer", 1));
+    snprintf(buf, n, "[mode=%ld sched=%s threads=%d ndev=%d memtiles=%ld peer=%ld]", hx_knob(p, "mode", 0), sched_of(p), SH.nthreads, SH.ndev, hx_knob(p, "memtiles", 4), hx_knob(p, "peer", 1));
 }
 
 static void describe_abort(char *buf, size_t n)
